@@ -25,6 +25,10 @@ V3 == {"", "v1", "v2"}
 NoReaders == {}
 R1 == {"r1"}
 R2 == {"r1", "r2"}
+AllPaths == BPaths
+Nested == BPaths \ {<<>>}
+NoPaths == {}
+PreA == {<<"a">>}
 FlushBoth == {TRUE, FALSE}
 FlushNever == {FALSE}
 FlushAlways == {TRUE}
